@@ -207,7 +207,7 @@ def r_gamma_ens(chains, reps, S, tau_exp, N_sigma):
     gaps = []
     for n in reps:
         cs = sorted(chains[n])
-        gaps.append(min(b - a for a, b in zip(cs, cs[1:])))
+        gaps.append(int(np.gcd.reduce([b - a for a, b in zip(cs, cs[1:])])))      # the common spacing of the chain (statement), not its smallest gap
     gap = min(gaps)
     if any(g % gap for g in gaps):
         return 'noncommensurate'
